@@ -154,7 +154,18 @@ class DCModel:
         if f is None:
             raise AnalysisError("anchor vanished: add_dialects")
         ret = [n for n in ast.walk(f.node) if isinstance(n, ast.Return)]
-        ok = len(ret) == 1 and isinstance(ret[0].value, ast.ListComp) and ast.unparse(ret[0].value.elt).endswith(".__d_name__")
+        # [d.__d_name__ for d in dialects] - or the same names in another container (tuple / set / frozenset / list / sorted of a
+        # comprehension): the container TYPE is part of the model (the consumer tests it with isinstance)
+        wrap = list
+        v = ret[0].value if len(ret) == 1 else None
+        if isinstance(v, ast.Call) and isinstance(v.func, ast.Name) and v.func.id in ("list", "tuple", "set", "frozenset", "sorted") \
+                and len(v.args) == 1 and not v.keywords:
+            wrap = {"list": list, "tuple": tuple, "set": set, "frozenset": frozenset, "sorted": sorted}[v.func.id]
+            v = v.args[0]
+        elif isinstance(v, ast.SetComp):
+            wrap = set
+        ok = isinstance(v, (ast.ListComp, ast.GeneratorExp, ast.SetComp)) and ast.unparse(v.elt).endswith(".__d_name__") \
+            and len(v.generators) == 1 and not v.generators[0].ifs
         if not ok:
             raise AnalysisError("add_dialects no longer returns [d.__d_name__ for d in dialects]: metadata model incomplete")
         for key, fields in self.own_fields.items():
@@ -171,7 +182,7 @@ class DCModel:
                             if r is None:
                                 raise AnalysisError(f"add_dialects: cannot resolve {ast.unparse(e)}")
                             names.append(self.d_name[r])
-                        fi.metadata[mk] = names
+                        fi.metadata[mk] = wrap(names)
 
     def _dialect_by_name(self):
         """{obj.__d_name__: obj for obj in globals().values() if subclass of Dialect and obj != Dialect}, evaluated at the
